@@ -32,6 +32,7 @@ Data == [ anycap |-> VLg(I3, "anycap"),               \* []interface{} with spar
           tags   |-> VLg(S3, "tags"),                 \* type Tags []string
           i64s   |-> VLg(I3, "i64s"),                 \* []int64
           f32s   |-> VLg(I3, "f32s"),                 \* []float32
+          f64s   |-> VLg(I3, "f64s"),                 \* []float64
           \* (keys in sorted order: which order a map is walked in is C03's business, not this property's)
           map    |-> VM(<<VS(<<97>>), VS(<<98>>)>>, <<VI(1), VI(2)>>),
           msi    |-> VMg(<<VS(<<97>>), VS(<<98>>)>>, <<VI(1), VI(2)>>, "msi") ]
@@ -65,7 +66,8 @@ ChainProg(c) == <<D(ChainExpr(c.fs, X)), T(<<124>>), D(X)>>
 ReobsCases == {[fam |-> "reobs", d |-> d, f |-> f, g |-> g] : d \in DOMAIN Data, f \in Steps, g \in Steps}
 ReobsProg(c) == <<Set("s", Step(c.f, X)), Set("m", Step(c.g, Var("s"))), D(Var("s")), T(<<124>>), D(Var("m")), T(<<124>>), D(Var("s")), T(<<124>>), D(X)>>
 \* family 3: writes to names that exist in the caller's context
-WriteKinds == {"set", "loopvar", "loopkey", "includewith", "macroparam", "setinloop", "setinblock", "setininclude"}
+WriteKinds == {"set", "loopvar", "loopkey", "includewith", "macroparam", "setinloop", "setinblock", "setininclude",
+               "importalias", "fromalias", "macroname", "setmerge", "blockname"}
 WriteCases == {[fam |-> "write", d |-> d, w |-> w] : d \in {"any", "map"}, w \in WriteKinds}
 WriteProg(c) ==
     CASE c.w = "set"          -> <<Set("x", LI(5)), D(X)>>
@@ -76,6 +78,12 @@ WriteProg(c) ==
       [] c.w = "setinloop"    -> <<For1("i", Lit(VL(<<VI(1), VI(2)>>)), <<Set("x", Var("i"))>>), D(X)>>
       [] c.w = "setinblock"   -> <<Block("bb", <<Set("x", LI(7))>>), D(X)>>
       [] c.w = "setininclude" -> <<Inc(LS(NT.t2)), T(<<124>>), D(X)>>
+      \* the name of a context variable used as the alias of an import, of a from-import, as a macro name, a block name
+      [] c.w = "importalias"  -> <<Import(LS(NT.t3), "x"), PrintS(MCall("x", "mm", <<>>))>>
+      [] c.w = "fromalias"    -> <<From(LS(NT.t3), <<"mm">>, <<"x">>), PrintS(Call("x", <<>>))>>
+      [] c.w = "macroname"    -> <<Macro("x", <<>>, <<T(<<109>>)>>), PrintS(MCall("_self", "x", <<>>))>>
+      [] c.w = "blockname"    -> <<Block("x", <<T(<<98>>)>>), T(<<124>>), D(X)>>
+      [] c.w = "setmerge"     -> <<Set("x", FA("merge", X, <<X>>)), D(X)>>
 \* family 4: nested data reached through attributes
 NestCases == {[fam |-> "nested", f |-> f, g |-> g] : f \in {"sort", "reverse", "merge", "slice", "slicetail", "mergeself"}, g \in {"sort", "reverse", "merge"}}
 NestCtx == ("o" :> VMg(<<VS(<<73, 116, 101, 109, 115>>)>>, <<VL(I3)>>, "holder"))        \* struct{Items []int}
@@ -108,16 +116,30 @@ MergeArgs == {Var("undefinedvar"), Lit(Null), Arr(<<LI(9)>>), LS(<<115>>), LI(4)
 MergeArgCases == {[fam |-> "mergeargs", d |-> d, a1 |-> a1, a2 |-> a2] : d \in {"any", "ints", "map", "msi"}, a1 \in MergeArgs, a2 \in MergeArgs}
 MergeArgProg(c) == <<D(FA("merge", X, <<c.a1, c.a2>>)), T(<<124>>), D(X)>>
 
+\* family 8: Go values with methods that change their receiver: a template works on the values it was given (whatever the
+\* calls return), the caller's elements stay as they are and a second render with the same values prints the same
+ObjData == [ counters |-> VLg(<<VI(1), VI(5)>>, "counters"), counterptrs |-> VLg(<<VI(1), VI(5)>>, "counterptrs"), counterarr |-> VLg(<<VI(1), VI(5)>>, "counterarr") ]
+ObjProgs == [ loopnext |-> <<For1("i", X, <<PrintS(Attr(Var("i"), "Next")), T(<<44>>), PrintS(Attr(Var("i"), "Next")), T(<<59>>)>>)>>,
+              looppush |-> <<For1("i", X, <<PrintS(Attr(Var("i"), "Push")), T(<<59>>)>>)>>,
+              itemnext |-> <<PrintS(Attr(Item(X, LI(0)), "Next")), PrintS(Attr(Filt("first", X, <<>>), "Next")), PrintS(Attr(Filt("last", X, <<>>), "Push"))>>,
+              loopkv   |-> <<For("v", "k", X, <<PrintS(Attr(Var("v"), "Next"))>>, <<>>, FALSE)>>,
+              chained  |-> <<For1("i", FA("slice", X, <<LI(0), LI(2)>>), <<PrintS(Attr(Var("i"), "Next"))>>), For1("i", F("reverse", X), <<PrintS(Attr(Var("i"), "Push"))>>)>>,
+              setnext  |-> <<Set("e", Item(X, LI(1))), PrintS(Attr(Var("e"), "Next")), PrintS(Attr(Attr(Var("e"), "Reset"), "N"))>>,
+              incnext  |-> <<Include(LS(NT.t4), Hash(<<LS(NT.e)>>, <<Item(X, LI(0))>>), TRUE, FALSE, FALSE, FALSE)>> ]
+\* (pointers handed in by the caller are the caller's invitation to work on the objects: only values and arrays of values)
+ObjCases == {[fam |-> "objs", d |-> d, p |-> p] : d \in {"counters", "counterarr"}, p \in DOMAIN ObjProgs}
+
 \* a context with many keys (size classes of the engine's pooled maps) and top-level writes
 BigKeys == {"k01", "k02", "k03", "k04", "k05", "k06", "k07", "k08", "k09", "k10", "k11", "k12", "k13", "k14", "k15", "k16", "k17", "k18", "k19", "k20"}
 BigCtx(n) == [k \in {kk \in BigKeys : \E i \in 1..n : kk = (IF i < 10 THEN "k0" \o ToString(i) ELSE "k" \o ToString(i))} |-> VI(1)] @@ ("x" :> VL(I3))
 BigCases == {[fam |-> "bigctx", n |-> n, w |-> w] : n \in {3, 15, 16, 17, 20}, w \in {"set", "loopvar", "setinloop", "macroparam"}}
 BigProg(c) == <<Set("k01", LI(5)), Set("fresh", LI(6))>> \o WriteProg([w |-> c.w]) \o <<PrintS(Var("k01")), PrintS(Var("k02"))>>
-Prog(c) == CASE c.fam = "bigctx" -> BigProg(c) [] c.fam = "pair" -> PairProg(c) [] c.fam = "mergeargs" -> MergeArgProg(c) [] c.fam = "chain" -> ChainProg(c) [] c.fam = "reobs" -> ReobsProg(c)
+Prog(c) == CASE c.fam = "objs" -> ObjProgs[c.p] [] c.fam = "bigctx" -> BigProg(c) [] c.fam = "pair" -> PairProg(c) [] c.fam = "mergeargs" -> MergeArgProg(c) [] c.fam = "chain" -> ChainProg(c) [] c.fam = "reobs" -> ReobsProg(c)
              [] c.fam = "write" -> WriteProg(c) [] c.fam = "nested" -> NestProg(c)
-CtxOf(c) == IF c.fam = "nested" THEN NestCtx ELSE IF c.fam = "bigctx" THEN BigCtx(c.n)
+CtxOf(c) == IF c.fam = "objs" THEN ("x" :> ObjData[c.d]) ELSE IF c.fam = "nested" THEN NestCtx ELSE IF c.fam = "bigctx" THEN BigCtx(c.n)
             ELSE IF c.fam = "pair" THEN ("x" :> PairData[c.d].x) @@ ("y" :> PairData[c.d].y) ELSE ("x" :> Data[c.d])
-Tp(c) == ("main" :> Prog(c)) @@ ("t1" :> <<D(X), Set("x", LI(0))>>) @@ ("t2" :> <<Set("x", LI(9)), D(X)>>)
+Tp(c) == ("main" :> Prog(c)) @@ ("t1" :> <<D(X), Set("x", LI(0))>>) @@ ("t2" :> <<Set("x", LI(9)), D(X)>>) @@ ("t3" :> <<Macro("mm", <<>>, <<T(<<109>>)>>)>>)
+         @@ ("t4" :> <<PrintS(Attr(Var("e"), "Next")), PrintS(Attr(Var("e"), "Push"))>>)
 Ref(c) == Render(MkW(Tp(c), {}, {}, NoFault), "main", CtxOf(c))
 
 CaseOf(c) ==
@@ -128,19 +150,21 @@ CaseOf(c) ==
               \cup (IF c.fam \in {"reobs", "nested"} THEN {"f:" \o c.f, "f:" \o c.g} ELSE {})
               \cup (IF c.fam \in {"write", "bigctx"} THEN {"w:" \o c.w} ELSE {}) \cup (IF c.fam = "pair" THEN {"f:" \o c.f, "form:" \o c.form} ELSE {}),
      entry |-> "main", ctx |-> CtxOf(c),
-     runs |-> {[label |-> c.fam, tp |-> Sources(Tp(c), LMin), xcalls |-> [id \in {} |-> 0], shared |-> 2]},
+     \* (the second run: the engine in debug mode)
+     runs |-> {[label |-> c.fam, tp |-> Sources(Tp(c), LMin), xcalls |-> [id \in {} |-> 0], shared |-> 2],
+               [label |-> c.fam \o "/debug", tp |-> Sources(Tp(c), LMin), xcalls |-> [id \in {} |-> 0], shared |-> 2, debug |-> TRUE]},
      \* (what merge makes of arguments of mixed kinds is not stated: only the caller's data and the repeatability are checked)
-     expect |-> IF c.fam = "mergeargs" THEN [ok |-> TRUE, anyoutcome |-> TRUE, out |-> <<>>, noout |-> TRUE, err |-> "", calls |-> [id \in {} |-> 0]]
+     expect |-> IF c.fam \in {"mergeargs", "objs"} THEN [ok |-> TRUE, anyoutcome |-> TRUE, out |-> <<>>, noout |-> TRUE, err |-> "", calls |-> [id \in {} |-> 0]]
                 ELSE [ok |-> ref.ok, out |-> ref.out, err |-> ref.err, calls |-> [id \in {} |-> 0]]]
 
-Fams == {"chain", "reobs", "write", "nested", "bigctx", "pair", "mergeargs"}
-All == ChainCases \cup ReobsCases \cup WriteCases \cup NestCases \cup BigCases \cup PairCases \cup MergeArgCases
+Fams == {"chain", "reobs", "write", "nested", "bigctx", "pair", "mergeargs", "objs"}
+All == ChainCases \cup ReobsCases \cup WriteCases \cup NestCases \cup BigCases \cup PairCases \cup MergeArgCases \cup ObjCases
 Init == cs \in {[part |-> f] : f \in Fams}
 Valid(c) == CASE c.fam = "chain" -> ChainOK(c.d, c.fs)
              [] c.fam = "reobs" -> (IsMapData(c.d) => c.f \in MapFirstSteps /\ (c.f \in {"default", "mergeself"} => c.g \in MapFirstSteps))
              [] c.fam = "pair" -> PairOK(c)
              [] OTHER -> TRUE
-Next == "part" \in DOMAIN cs /\ cs' \in {c \in All : c.fam = cs.part /\ Valid(c) /\ (c.fam = "mergeargs" \/ Ref(c).ok)}
+Next == "part" \in DOMAIN cs /\ cs' \in {c \in All : c.fam = cs.part /\ Valid(c) /\ (c.fam \in {"mergeargs", "objs"} \/ Ref(c).ok)}
 Spec == Init /\ [][Next]_cs
 IsCase == "fam" \in DOMAIN cs
 Emit == IsCase => PrintT(ToJson(CaseOf(cs)))
